@@ -20,8 +20,11 @@ fn is_cb(h: &str, i: usize) -> bool {
 pub fn replace(args: &Args) -> Report {
     let thorough = args.thorough();
     let seed = args.num("seed", 0);
+    // mode safety (C15): only a panic counts — whether the output equals the splice definition is
+    // C12's business
+    let safety = args.get("mode", "def") == "safety";
     let rep = Report::new(
-        "replace",
+        if safety { "replace[safety]" } else { "replace" },
         format!("byte patterns drawn from {{'', 'a', 'é', '€', C3, A9, E2 82, 82 AC, AC, 'aé', '€a'}} ({} lists of 1..3) x 3 match kinds x {{top-level auto, low-level noncontiguous, contiguous, DFA}}; haystacks: valid UTF-8 strings over {{a, é, €, 😀}} up to {} chars; replacement tables of valid strings; closure variants stopping after 0..3 matches",
                 if thorough { "all 1463" } else { "sampled" }, if thorough { 5 } else { 4 }),
         "case = (pattern list, kind, engine, haystack, API variant); non-trivial = some pattern occurs".into(),
@@ -102,7 +105,7 @@ pub fn replace(args: &Args) -> Report {
                         Built::D(a) => a.try_replace_all_bytes(hb, &repl_b).map_err(|e| e.to_string()),
                     }));
                     rep.case(!ms.is_empty());
-                    if !matches!(&got_b, Ok(Ok(g)) if *g == want_b) {
+                    if (safety && got_b.is_err()) || (!safety && !matches!(&got_b, Ok(Ok(g)) if *g == want_b)) {
                         rfail(&rep, "replace_all_bytes", &cfg, pats, hb, format!("expected '{}', got {:?}", show(&want_b), got_b.map(|r| r.map(|v| show(&v)))));
                     }
                     // str: matches whose bounds are not char boundaries are skipped
@@ -115,7 +118,7 @@ pub fn replace(args: &Args) -> Report {
                         Built::D(a) => a.try_replace_all(h, &repl_s).map_err(|e| e.to_string()),
                     }));
                     rep.case(!ms.is_empty());
-                    if !matches!(&got_s, Ok(Ok(g)) if g.as_bytes() == &want_s[..]) {
+                    if (safety && got_s.is_err()) || (!safety && !matches!(&got_s, Ok(Ok(g)) if g.as_bytes() == &want_s[..])) {
                         rfail(&rep, "replace_all(&str)", &cfg, pats, hb, format!("expected '{}', got {:?}", show(&want_s), got_s.map(|r| r.map(|v| show(v.as_bytes())))));
                     }
                     // closure variants with early stop after k matches: the remainder is copied verbatim
@@ -154,7 +157,7 @@ pub fn replace(args: &Args) -> Report {
                             .map(|_| dst)
                         }));
                         rep.case(!ms.is_empty());
-                        if !matches!(&got, Ok(Ok(g)) if *g == want) {
+                        if (safety && got.is_err()) || (!safety && !matches!(&got, Ok(Ok(g)) if *g == want)) {
                             rfail(&rep, &format!("replace_all_with_bytes(stop after {})", stop + 1), &cfg, pats, hb, format!("expected '{}', got {:?}", show(&want), got.map(|r| r.map(|v| show(&v)))));
                         }
                     }
@@ -188,7 +191,7 @@ pub fn replace(args: &Args) -> Report {
                     }
                     want.extend_from_slice(&hb[last..]);
                     rep.case(!ms.is_empty());
-                    if !matches!(&got, Ok(Ok(g)) if g.as_bytes() == &want[..]) {
+                    if (safety && got.is_err()) || (!safety && !matches!(&got, Ok(Ok(g)) if g.as_bytes() == &want[..])) {
                         rfail(&rep, "replace_all_with(&str)", &cfg, pats, hb, format!("expected '{}', got {:?}", show(&want), got.map(|r| r.map(|v| show(v.as_bytes())))));
                     }
                     if rep.full() {
@@ -912,5 +915,50 @@ pub fn faildepth(args: &Args) -> Report {
             }
         }
     });
+    // the replace APIs are "find_iter plus splicing": they do exactly the automaton work of the
+    // iterator they are defined by (no rescanning), also on &str haystacks where matches that
+    // split a code point are skipped
+    {
+        let e = "\u{e9}".as_bytes(); // C3 A9
+        let mut longp: Vec<u8> = vec![];
+        for _ in 0..60 {
+            longp.extend_from_slice(e);
+        }
+        longp.push(0xC3);
+        let cases: Vec<(Vec<Vec<u8>>, String)> = vec![
+            (vec![longp.clone()], "\u{e9}".repeat(400)),
+            (vec![vec![0xA9], vec![0xC3], "\u{2603}".as_bytes().to_vec()], "a\u{e9}\u{2603}b\u{e9}\u{e9}".repeat(30)),
+            (vec![b"ab".to_vec(), vec![0xA9, b'a']], "\u{e9}ab\u{e9}a".repeat(50)),
+            (vec![b"aaaa".to_vec(), b"aab".to_vec()], "aaaaaaaaaaab".repeat(40)),
+        ];
+        for (pats, hay) in &cases {
+            for mk in [Kind::Std, Kind::LF, Kind::LL] {
+                for kind in [None, Some(aho_corasick::AhoCorasickKind::NoncontiguousNFA), Some(aho_corasick::AhoCorasickKind::ContiguousNFA), Some(aho_corasick::AhoCorasickKind::DFA)] {
+                    let ac = match aho_corasick::AhoCorasickBuilder::new().match_kind(mk_real(mk)).kind(kind).build(pats) {
+                        Ok(a) => a,
+                        Err(_) => continue,
+                    };
+                    aho_corasick::verif::reset_counters();
+                    let n = ac.find_iter(hay.as_bytes()).count();
+                    let (t_iter, _) = aho_corasick::verif::counters();
+                    let repl: Vec<String> = (0..pats.len()).map(|i| format!("<{}>", i)).collect();
+                    aho_corasick::verif::reset_counters();
+                    let _ = catch_unwind(AssertUnwindSafe(|| ac.replace_all(hay, &repl)));
+                    let (t_str, _) = aho_corasick::verif::counters();
+                    aho_corasick::verif::reset_counters();
+                    let _ = catch_unwind(AssertUnwindSafe(|| ac.replace_all_bytes(hay.as_bytes(), &repl)));
+                    let (t_bytes, _) = aho_corasick::verif::counters();
+                    rep.case(n > 0);
+                    if t_str > t_iter || t_bytes > t_iter {
+                        rep.fail(Fail {
+                            key: format!("work:replace:{}:{:?}:{}", mk.name(), kind, show_pats(&pats[..pats.len().min(2)])),
+                            what: format!("replace_all does more automaton work than the iterator it is defined by: {} transitions (&str) / {} (bytes) vs {} for find_iter, {} bytes, patterns {} (kind {}, {:?})", t_str, t_bytes, t_iter, hay.len(), show_pats(&pats[..pats.len().min(2)]), mk.name(), kind),
+                            argv: vec!["faildepth".into()],
+                        });
+                    }
+                }
+            }
+        }
+    }
     rep
 }
